@@ -83,7 +83,7 @@ def run(tier, seed):
     import pyqsp.angle_sequence as A
     rng = ctx.rng
     degrees = list(range(1, 21))
-    reps = 4 if tier == "quick" else 40
+    reps = 12 if tier == "quick" else 80
     for n in degrees:
         for _ in range(reps):
             ph, style = P.corner_phases(rng, n)
